@@ -97,13 +97,13 @@ EXTRA = {
     "C04": "Direct probes: callbacks that panic at their k-th invocation (receiver and earlier results untouched), variadic arguments spread from a slice the caller keeps. Predicates with memory, stable Sort of tying records, SortByIndex comparator views, rows as elements.",
     "C05": "Earlier results re-checked after later calls on spare-capacity receivers; operands of 260..1500 elements; pointer elements with equal contents but different identity. Mixed dynamic types in the interface{} family; a foreign SetDef implementation as operand; 3..300 operands.",
     "C06": "Burst histories up to 66000 (thorough 262200) held elements with GC paused. Eight other instantiations alive in one process; bulk release of spare nodes followed by pauses; a queue held by value.",
-    "C07": "Back-pressure runs with a blocking Take() consumer and a delivery-progress monitor; 'no limit' buffer sizes. Other instantiations through the overflow list; idle periods of about 100 loader intervals; the back-pressure verdict is taken on logical time. SetBufferSizeMaximum on the live queue (shrinking below / growing above what is buffered).",
+    "C07": "Back-pressure runs with a blocking Take() consumer and a delivery-progress monitor; 'no limit' buffer sizes. Other instantiations through the overflow list; idle periods of about 100 loader intervals; the back-pressure verdict is taken on logical time. SetBufferSizeMaximum on the live queue (shrinking below / growing above what is buffered). Offer / Poll / Count against a 4 s loader interval (no call parks on a queue lock).",
     "C08": "Phased bursts above 1024 held values; a self-refilling BufferedChannelQueue under the wrapper; one LinkedListQueue behind both wrappers in phases. A user queue embedding ChannelQueue; other instantiations; wrapped structures that panic once.",
     "C09": "Two pools on one job queue; slow panic handlers; standby-0 pools always sampled; boundary timeouts through ScheduleWithTimeout / InvokeWithTimeout. Jobs ending with runtime.Goexit or run-time errors; stand-by size above the maximum.",
     "C10": "Values published on derived publishers; re-subscription of copied subscription values; deliveries pending on a busy SubscribeOn handler while subscriptions change. Subscribe before/after SubscribeOn; Unsubscribe on a foreign publisher. SubscribeOn configured on the origin (or a middle level) before Map chains are derived.",
     "C11": "Branching compositions; pending deliveries of a counting MonadIO; carried values that are themselves MonadIOs; re-configuration in flight. Inner monads with their own handlers; the package default Handler as first call of the process; 8 concurrent evaluations; every program under the stuck detector. Evaluation by a coroutine (Cor.YieldFromIO): effect on the ObserveOn handler's goroutine, once.",
     "C12": "Close from the running work with buffered items and blocked senders; closed while busy; timed-out Asks as messages. IsClosed polled during traffic; first submissions to thousands of fresh mailboxes racing each other; one sender interleaving AskChannel and Send; Close from outside with a backlog. Spawn trees with a closed root / middle node: the actors below stay open and process later messages.",
-    "C13": "Caller supplied reply channels; near-timeout then long-timeout histories (old timer-channel semantics selected); non-positive timeouts; requests queued behind a busy actor. Ask objects older than their timeout; scatter/gather of several AskChannel calls; late hand-over to a busy unbuffered actor. One ask object sent again with AskChannel (polling client), one-shot asks in between.",
+    "C13": "Caller supplied reply channels; near-timeout then long-timeout histories (old timer-channel semantics selected); non-positive timeouts; requests queued behind a busy actor. Ask objects older than their timeout; scatter/gather of several AskChannel calls; late hand-over to a busy unbuffered actor. One ask object sent again with AskChannel (polling client), one-shot asks in between. Replies produced 1.3 s / 2.6 s after the timeout.",
     "C14": "Target held back until its request channel is full; YieldFromIO whose effect uses YieldFrom; back-to-back Start calls. Callers preceding Start(); volume runs of 150000+ requests per caller against an echoing target. YieldFromIO over eight owner-configured IO shapes (ObserveOn / SubscribeOn on one or two handlers).",
     "C15": "Caller completing inside its own YieldFrom; job queue closed under an open pool; pool churn (thousands of short-lived pools closed under load). After-close probes at every fill level. Offer / Put producers on a completely full queue while Close arrives.",
     "C16": "Long lists; nested PMap; one option value reused across calls. Interface result types with nil results; zero-size result types; caller slices with spare capacity. A callback that ends its goroutine with runtime.Goexit: the call still returns, at-most-once, no invented result.",
